@@ -104,12 +104,19 @@ Antecedent(n, c) == CASE n = "L1" -> DO(c) = {}
                       [] n = "L2" -> DT(c) = {}
                       [] n = "L3" -> DT(c) = DO(c)
                       [] n = "L4" -> Disjoint(c)
-Result(n, c) == CASE n = "L1" -> Proj(c, ByPath(This(c)))
-                  [] n = "L2" -> Proj(c, ByPath(Other(c)))
-                  [] n = "L3" -> Proj(c, ByPath(This(c)))
-                  [] n = "L4" -> IF c.fl = "ids" THEN ByPath(Apply(Base(c), DT(c) \cup DO(c)))
-                                 ELSE PathUnion(FilesOnly(ByPath(Base(c))), FilesOnly(ByPath(This(c))),
-                                                FilesOnly(ByPath(Other(c))))
+\* the trees a law accepts.  One tree, except law 4 on path-based trees when the sides are also disjoint as
+\* identities (one side renames a directory, the other adds or moves a file into it): both the path-level union and
+\* the union that follows the directory rename are "the union of both sides' changes".
+IdUnion(c) == Apply(Base(c), DT(c) \cup DO(c))
+IdDisjoint(c) == /\ Touch(DT(c)) \cap Touch(DO(c)) = {}
+                 /\ Applicable(Base(c), DT(c) \cup DO(c)) /\ Valid(IdUnion(c))
+Results(n, c) == CASE n = "L1" -> {Proj(c, ByPath(This(c)))}
+                   [] n = "L2" -> {Proj(c, ByPath(Other(c)))}
+                   [] n = "L3" -> {Proj(c, ByPath(This(c)))}
+                   [] n = "L4" -> IF c.fl = "ids" THEN {ByPath(IdUnion(c))}
+                                  ELSE {PathUnion(FilesOnly(ByPath(Base(c))), FilesOnly(ByPath(This(c))),
+                                                  FilesOnly(ByPath(Other(c))))}
+                                       \cup (IF IdDisjoint(c) THEN {FilesOnly(ByPath(IdUnion(c)))} ELSE {})
 LawIds == <<"L1", "L2", "L3", "L4">>
 Holds(c) == {n \in Range(LawIds) : Antecedent(n, c)}
 
@@ -119,14 +126,17 @@ Holds(c) == {n \in Range(LawIds) : Antecedent(n, c)}
         disk      the files on disk (unversioned leftovers included) are not the result tree *)
 Obs(S) == Range(S)                  \* observed projections arrive as sequences of records
 Failed(c, o) ==
-    UNION {   (IF Proj(c, Obs(o.tree)) # Result(n, c) THEN {n \o ".tree"} ELSE {})
-         \cup (IF Len(o.conflicts) # 0 THEN {n \o ".conflicts"} ELSE {})
-         \cup (IF Proj(c, Obs(o.disk)) # Result(n, c) THEN {n \o ".disk"} ELSE {}) : n \in Holds(c)}
+    LET t == Proj(c, Obs(o.tree))  d == Proj(c, Obs(o.disk)) IN
+    UNION {LET r == Results(n, c) IN
+                (IF t \notin r THEN {n \o ".tree"} ELSE {})
+           \cup (IF Len(o.conflicts) # 0 THEN {n \o ".conflicts"} ELSE {})
+           \cup (IF d \notin r THEN {n \o ".disk"} ELSE {}) : n \in Holds(c)}
 \* fixture control: the three revisions the harness built are the three trees of the case
 FixtureOk(c, o) == /\ Proj(c, Obs(o.base)) = Proj(c, ByPath(Base(c)))
                    /\ Proj(c, Obs(o.this)) = Proj(c, ByPath(This(c)))
                    /\ Proj(c, Obs(o.other)) = Proj(c, ByPath(Other(c)))
 
-\* the observation a correct merge produces (c satisfies at least one antecedent)
-SpecTree(c) == Result(CHOOSE n \in Holds(c) : TRUE, c)
+\* the trees every applicable law accepts, and the observation of a correct merge (c satisfies some antecedent)
+Common(c) == {r \in UNION {Results(n, c) : n \in Holds(c)} : \A n \in Holds(c) : r \in Results(n, c)}
+SpecTree(c) == CHOOSE r \in Common(c) : TRUE
 =============================================================================
